@@ -1115,9 +1115,22 @@ func (vc *VC) execBlock(fr *Frame, b *ssa.BasicBlock, st *State, in map[*ssa.Bas
 		}
 	}
 	fired := map[*Clause]bool{}
+	prevLine := ""
 	for _, ins := range b.Instrs {
 		if fr.con != nil && len(fr.con.Asserts) > 0 {
 			if _, dbg := ins.(*ssa.DebugRef); !dbg {
+				// `after` anchors: the previous source line of this block has been executed completely
+				cur := ""
+				if ins.Pos().IsValid() {
+					cur = vc.eng.lineTextFull(vc.pos(ins.Pos()))
+				}
+				_, isTerm := ins.(*ssa.Jump)
+				if prevLine != "" && ((cur != "" && cur != prevLine) || isTerm) {
+					vc.afterAnchors(fr, st, prevLine, ins, fired)
+				}
+				if cur != "" {
+					prevLine = cur
+				}
 				vc.inlineAsserts(fr, st, ins, fired)
 			}
 		}
@@ -1673,8 +1686,18 @@ func (vc *VC) inlineAsserts(fr *Frame, st *State, ins ssa.Instruction, fired map
 	}
 	pos := vc.pos(ins.Pos())
 	line := vc.eng.lineTextFull(pos)
+	vc.fireAnchors(fr, st, line, pos, fired, false)
+}
+
+// afterAnchors fires the `after "text"` clauses whose line has just been left.
+func (vc *VC) afterAnchors(fr *Frame, st *State, prevLine string, ins ssa.Instruction, fired map[*Clause]bool) {
+	pos := vc.pos(instrPos(fr.fn, ins))
+	vc.fireAnchors(fr, st, prevLine, pos, fired, true)
+}
+
+func (vc *VC) fireAnchors(fr *Frame, st *State, line string, pos token.Position, fired map[*Clause]bool, after bool) {
 	for i, cl := range fr.con.Asserts {
-		if fired[cl] || !strings.Contains(line, cl.Match) {
+		if fired[cl] || cl.After != after || !strings.Contains(line, cl.Match) {
 			continue
 		}
 		fired[cl] = true
